@@ -496,6 +496,12 @@ func (fi *FnIntervals) eval(v ssa.Value, b *ssa.BasicBlock) Itv {
 		for k, e := range x.Edges {
 			p := b.Preds[k]
 			m := map[ssa.Value]Itv{}
+			if _, seen := fi.refine[p]; !seen && p != b {
+				// a predecessor that comes later in the dominator preorder
+				// (the second operand of a short-circuit test): its branch
+				// refinements only depend on its dominators, which are done
+				fi.computeRefine(p)
+			}
 			for kk, vv := range fi.refine[p] {
 				m[kk] = vv
 			}
